@@ -1,7 +1,8 @@
 ---------------------------- MODULE MC_Sanitizer ----------------------------
 (* Bounded-exhaustive exploration of the token-level sanitizer.                               *)
 (*  Mode = "tok": every token (tag kinds x element names/namespaces, other token kinds) with  *)
-(*                <= MaxLen attributes of distinct keys from AttrChoices, under every         *)
+(*                <= MaxLen attributes of distinct keys from AttrChoices (more than two only  *)
+(*                on the elements of Deep), under every                                       *)
 (*                allow-list configuration Lcfg(k); attributes are added one at a time, so    *)
 (*                every prefix is a state.                                                    *)
 (*  Mode = "css": every style value that is a concatenation of <= MaxLen CSS fragments         *)
@@ -50,6 +51,7 @@ NCfg == 4
 T(t, n, ns, a, d) == [t |-> t, n |-> n, ns |-> ns, a |-> a, d |-> d, p |-> None, s |-> None]
 Elems == {<<NS_html, S_a>>, <<NS_html, S_p>>, <<NS_html, S_script>>, <<None, S_a>>, <<None, S_script>>, <<NS_svg, S_use>>,
           <<NS_svg, S_script>>, <<NS_svg, S_a>>, <<NS_mathml, S_mi>>, <<NS_svg, S_rect>>}
+Deep == {<<NS_html, S_a>>, <<NS_svg, S_use>>, <<None, S_a>>}
 Voids == {<<NS_html, S_br>>, <<NS_html, S_meta>>}
 AttrChoices == {
     <<None, N_href, <<106, 97, 118, 97, 115, 99, 114, 105, 112, 116, 58, 120>>>>,                        \* javascript:x
@@ -113,6 +115,7 @@ Init == IF Mode = "tok"
 Next == /\ n < MaxLen /\ n' = n + 1 /\ UNCHANGED k
         /\ IF Mode = "tok"
            THEN /\ tok.t \in {"StartTag", "EmptyTag"} /\ UNCHANGED v
+                /\ (n < 2 \/ <<tok.ns, tok.n>> \in Deep)          \* a third and later attribute on three representative elements only
                 /\ \E x \in AttrChoices : (\A i \in 1..Len(tok.a) : AttrKey(tok.a[i]) # AttrKey(x)) /\ tok' = [tok EXCEPT !.a = Append(@, x)]
            ELSE UNCHANGED tok /\ \E f \in Frags : v' = v \o f
 
